@@ -69,12 +69,23 @@ class Report:
             except OSError:
                 pass
         seen_keys = set()
+        produced = {v["key"] for v in self.violations} | {o["instance"] for o in self.obligations if isinstance(o.get("instance"), str)}
         for i, v in enumerate(self.violations):
             k = (v["property"], v["rule"], v["key"])
             if k in seen_keys:
                 continue
             seen_keys.add(k)
             kf = known.get(k)
+            if kf is None and "|" in v["key"] and getattr(self, "all_fn_names", None):
+                # the site of a recorded finding may have moved between sibling nested items of one parent function
+                fnpart, rest = v["key"].split("|", 1)
+                if "::" in fnpart:
+                    parent = fnpart.rsplit("::", 1)[0]
+                    cands = [kk for kk in known if kk[0] == v["property"] and kk[1] == v["rule"] and "|" in kk[2] and kk[2].endswith("|" + rest)
+                             and "::" in kk[2].split("|", 1)[0] and kk[2].split("|", 1)[0].rsplit("::", 1)[0] == parent
+                             and kk[2] not in produced and known[kk].get("status") == "known"]
+                    if len(cands) == 1:
+                        kf = known[cands[0]]
             if kf is not None and kf.get("status") == "known":
                 n_known += 1
                 out_lines.append("KNOWN-FINDING: property=%s %s [%s %s] %s" % (
